@@ -442,8 +442,13 @@ def hostPortOf (netloc : Str) : Option Str × Option (Option Nat) :=
         | (h, some p) => (lower h, parsePort p))
   (if host = [] then none else some host, port)
 
+/-- `urlsplit` first strips leading C0 control characters and spaces and removes every tab, CR and LF -/
+def cleanUrl (s : Str) : Str :=
+  (s.dropWhile fun c => c.toNat ≤ 32).filter fun c => c ≠ '\t' ∧ c ≠ '\r' ∧ c ≠ '\n'
+
 /-- `TargetURI(raw)`: scheme, `hostname`, `port`, `path`, `qs_flat` (no userinfo in the model) -/
-def parseUri (s : Str) : Option Uri :=
+def parseUri (s0 : Str) : Option Uri :=
+  let s := cleanUrl s0
   match splitFirst ':' s with
   | (sch, some rest0) =>
     if sch = [] ∨ !(sch.all isSchemeChar) ∨ !(sch.head?.any isAlphaCh) then none else
